@@ -194,7 +194,8 @@ def check_effects(w):
                 if not t['expect'].startswith(got):
                     w.violation('C16', 'stream-order',
                                 't%d stream destination received %r which is not a prefix of the object %r'
-                                % (t['idx'], _short(got), _short(t['expect'])))
+                                % (t['idx'], _short(got), _short(t['expect'])),
+                                {'variant': _dl_variant(w, t)})
             if ok:
                 if d == 'path':
                     got = w.fs.files.get(t['path'])
@@ -204,7 +205,13 @@ def check_effects(w):
                 if got != t['expect']:
                     w.violation('C02', 'content-differs',
                                 't%d download(%s) success but destination holds %r, object is %r'
-                                % (t['idx'], d, _short(got), _short(t['expect'])))
+                                % (t['idx'], d, _short(got), _short(t['expect'])),
+                                {'variant': _dl_variant(w, t), 'dst': d})
+
+
+def _dl_variant(w, t):
+    ranged = any(r.get('Range') for r in recs_of(w, t) if r['op'] == 'get_object')
+    return 'ranged' if ranged else 'single-get'
 
 
 def check_c03(w):
